@@ -49,7 +49,10 @@ def run_wavelet(cfg) -> Outcome:
     nd = len(cfg['domain'])
     axes = tuple(range(-nd, 0))
     level = cfg['level']
-    xn = x.numpy()
+    # the transformed axes may sit anywhere (op._dim): the reference works with them moved to the end, the documented layout puts
+    # the stacked coefficient axis at the position of the first transformed axis
+    dims_norm = tuple(d % x.ndim for d in op._dim)
+    xn = np.moveaxis(x.numpy(), dims_norm, tuple(range(-nd, 0)))
     if level is None:
         level = min(pywt.dwt_max_level(s, pywt.Wavelet(cfg['wavelet']).dec_len) for s in cfg['domain'])
     coeffs = pywt.wavedecn(xn, cfg['wavelet'], mode='zero', level=level, axes=axes) if level > 0 else [xn]
@@ -59,7 +62,7 @@ def run_wavelet(cfg) -> Outcome:
         # 2D: the order of pywt.wavedec2's tuple (cH, cV, cD) = ('da', 'ad', 'dd'); 1D / 3D: sorted keys
         for key in (['da', 'ad', 'dd'] if nd == 2 else sorted(lvl.keys())):
             parts.append(lvl[key].reshape(*xn.shape[:-nd], -1))
-    want = torch.as_tensor(np.concatenate(parts, -1))
+    want = torch.as_tensor(np.moveaxis(np.concatenate(parts, -1), -1, min(dims_norm)))
     viol = None
     fam = cfg['wavelet']
     if y.shape != want.shape or float((y - want).abs().max()) > 1e-8 * max(1.0, float(want.abs().max())):
@@ -171,7 +174,23 @@ def documented_action(cfg, built, F, A):
 
 def run(cfg, drv) -> Outcome:
     if cfg['kind'] == 'wavelet':
-        return run_wavelet(cfg)
+        o = run_wavelet(cfg)
+        # the predicted coefficient shapes: library vs the Lean model M.Wavelet.coefficientsShape (the bookkeeping theorems are about it)
+        import warnings
+
+        from pywt import Wavelet
+        from pywt._multilevel import _check_level
+
+        op = zoo_kernels.build(cfg)[0]
+        L = Wavelet(cfg['wavelet']).dec_len
+        with warnings.catch_warnings():
+            warnings.simplefilter('ignore')
+            lv = int(_check_level(cfg['domain'], [L] * len(cfg['domain']), cfg['level']))
+        m = drv.call({'op': 'wavelet_shapes', 'L': L, 'domain': list(cfg['domain']), 'level': lv})
+        got = [list(map(int, sh)) for sh in op.coefficients_shape]
+        if got != m['shapes'] and o.corr is None:
+            o.corr = f'{cfg}: coefficients_shape {got} differs from the model {m["shapes"]} (filter length {L}, verified level {lv})'
+        return o
     if cfg['kind'] == 'pca':
         return run_pca(cfg)
     if cfg['kind'] == 'einsum_rule':
